@@ -65,6 +65,19 @@ def lean_str(s):
     return "".join(out)
 
 
+def lean_unstr(t):
+    """inverse of lean_str for the escapes it produces"""
+    out, i = [], 0
+    while i < len(t):
+        if t[i] == "\\" and i + 1 < len(t):
+            c = t[i + 1]
+            if c == "x":
+                out.append(chr(int(t[i + 2:i + 4], 16))); i += 4; continue
+            out.append({"n": "\n", "t": "\t"}.get(c, c)); i += 2; continue
+        out.append(t[i]); i += 1
+    return "".join(out)
+
+
 CONDS = {
     "WIFEXITED(status)&&WEXITSTATUS(status)!=0": "exitedNonZero",
     "WIFSIGNALED(status)": "signaled",
@@ -115,31 +128,6 @@ def extract_chain(src):
         raise TranslateError("arm of SetTestFailureByStatusCode changed shape (%s): %s" % (cond, arm))
     return chain
 
-
-PARENT_TEMPLATE = (
-    r'constpid_tsyscallError=-1;pid_tcpid;pid_tw;intstatus=0;'
-    r'cpid=PlatformSpecificFork\(\);'
-    r'if\(cpid==syscallError\)\{result->addFailure\(TestFailure\(shell,"§(?P<fork>\d+)"\)\);return;\}'
-    r'if\(cpid==0\)\{'
-    r'constsize_tinitialFailureCount=result->getFailureCount\(\);'
-    r'shell->runOneTestInCurrentProcess\(plugin,\*result\);'
-    r'_exit\(initialFailureCount<result->getFailureCount\(\)\);'
-    r'\}else\{'
-    r'size_tamountOfRetries=0;'
-    r'do\{'
-    r'w=PlatformSpecificWaitPid\(cpid,&status,WUNTRACED\);'
-    r'if\(w==syscallError\)\{'
-    r'if\(EINTR==errno\)\{'
-    r'if\(amountOfRetries>(?P<bound>\d+)\)\{result->addFailure\(TestFailure\(shell,"§(?P<giveup>\d+)"\)\);return;\}'
-    r'amountOfRetries\+\+;'
-    r'\}else\{result->addFailure\(TestFailure\(shell,"§(?P<wait>\d+)"\)\);return;\}'
-    r'\}else\{'
-    r'SetTestFailureByStatusCode\(shell,result,status\);'
-    r'if\(WIFSTOPPED\(status\)\)kill\(w,SIGCONT\);'
-    r'\}'
-    r'\}while\(\(w==syscallError\)\|\|\(!WIFEXITED\(status\)&&!WIFSIGNALED\(status\)\)\);'
-    r'\}'
-)
 
 SEP_FLAG_LINE = 'if(runInSeperateProcess_)test->setRunInSeperateProcess();'
 LOOP_HEADER = 'boolgroupStart=true;result.testsStarted();for(UtestShell*test=tests_;test!=NULLPTR;test=test->getNext()){'
@@ -235,6 +223,22 @@ def init_statements(cli):
     return out
 
 
+def ignored_run_call(utest):
+    """IgnoredUtestShell::runOneTest: what its run-ignored branch does with the test"""
+    got, _ = normalise(function_body(utest, r"void\s+IgnoredUtestShell::runOneTest\s*\(\s*TestPlugin\s*\*\s*plugin\s*,\s*TestResult\s*&\s*result\s*\)\s*\{"))
+    m = re.fullmatch(r"if\(runIgnored_\)\{(.*?)return;\}result\.countIgnored\(\);", got)
+    if not m:
+        raise TranslateError("IgnoredUtestShell::runOneTest changed shape: " + got)
+    branch = m.group(1)
+    if branch == "UtestShell::runOneTest(plugin,result);":
+        return "viaRunOneTest"
+    stmts = [x for x in branch.split(";") if x]
+    if "runOneTestInCurrentProcess(plugin,result)" in stmts and not any("runOneTest(" in x.replace("runOneTestInCurrentProcess(", "")
+                                                                          or "SeperateProcess" in x for x in stmts):
+        return "inCurrentProcess"
+    raise TranslateError("IgnoredUtestShell::runOneTest: the run-ignored branch is not understood: " + branch)
+
+
 def expect_body(src, sig, want, what):
     got, _ = normalise(function_body(src, sig))
     if got != want:
@@ -244,17 +248,21 @@ def expect_body(src, sig, want, what):
 def extract():
     src = strip_comments(read(PLATFORM))
     chain = extract_chain(src)
-    # the fork/wait version is the one that names its plugin parameter
-    body = function_body(src, r"static\s+void\s+GccPlatformSpecificRunTestInASeperateProcess\s*\(\s*UtestShell\s*\*\s*shell\s*,"
-                              r"\s*TestPlugin\s*\*\s*plugin\s*,\s*TestResult\s*\*\s*result\s*\)\s*\{")
-    norm, lits = normalise(body)
-    m = re.fullmatch(PARENT_TEMPLATE, norm)
-    if not m:
-        raise TranslateError("GccPlatformSpecificRunTestInASeperateProcess changed shape: " + norm)
-    bound = int(m.group("bound"))
-    msg_fork = c_unescape(lits[int(m.group("fork"))])
-    msg_giveup = c_unescape(lits[int(m.group("giveup"))])
-    msg_wait = c_unescape(lits[int(m.group("wait"))])
+    # the fork/wait version is translated from the clang AST (translate/cxx2lean_c11.py); the retry bound and the
+    # three messages are read off the regenerated definitions, so both Gen files always describe the same source
+    from . import cxx2lean_c11
+    loop_text = cxx2lean_c11.generate()
+    core.write_if_changed(os.path.join(core.LEAN, "CppUModel", "Gen", "SeparateProcessLoop.lean"), loop_text)
+    LS = r'"((?:\\.|[^"\\])*)"'
+    m_fork = re.search(r'def forkFailedGen : BodyOut := \.ret \(\[' + LS + r'\]\) 0\n', loop_text)
+    m_eintr = re.search(r'\| \.eintr =>\n\s*if \(BitVec\.ult (\d+)#64 amountOfRetries\) then \.ret \(\[' + LS + r'\]\) 0\n'
+                        r'\s*else \.fall \(\[\]\) 0 \(amountOfRetries \+ 1#64\) status true\n', loop_text)
+    m_err = re.search(r'\| \.error =>\n\s*\.ret \(\[' + LS + r'\]\) 0\n', loop_text)
+    if not (m_fork and m_eintr and m_err):
+        raise TranslateError("GccPlatformSpecificRunTestInASeperateProcess: the regenerated wait loop no longer has the branches "
+                             "the hand model mirrors (fork failure / EINTR with a retry bound / other waitpid error):\n" + loop_text[-1600:])
+    bound = int(m_eintr.group(1))
+    msg_fork, msg_giveup, msg_wait = (lean_unstr(m_fork.group(1)), lean_unstr(m_eintr.group(2)), lean_unstr(m_err.group(1)))
     # the build variant without fork/waitpid/kill: the function that leaves its plugin parameter unnamed
     nf = function_body(src, r"static\s+void\s+GccPlatformSpecificRunTestInASeperateProcess\s*\(\s*UtestShell\s*\*\s*shell\s*,"
                             r"\s*TestPlugin\s*\*\s*,\s*TestResult\s*\*\s*result\s*\)\s*\{")
@@ -286,8 +294,11 @@ def extract():
                 "UtestShell::isRunInSeperateProcess")
     expect_body(utest, r"void\s+UtestShell::setRunInSeperateProcess\s*\(\s*\)\s*\{", "isRunAsSeperateProcess_=true;",
                 "UtestShell::setRunInSeperateProcess")
+    ign_call = ignored_run_call(utest)
+    expect_body(utest, r"void\s+IgnoredUtestShell::setRunIgnored\s*\(\s*\)\s*\{", "runIgnored_=true;", "IgnoredUtestShell::setRunIgnored")
     reg = strip_comments(read(REGISTRY))
     placement = sep_flag_placement(reg)
+    expect_body(reg, r"void\s+TestRegistry::setRunIgnored\s*\(\s*\)\s*\{", "runIgnored_=true;", "TestRegistry::setRunIgnored")
     expect_body(reg, r"bool\s+TestRegistry::endOfGroup\s*\(\s*UtestShell\s*\*\s*test\s*\)\s*\{",
                 "return(!test||!test->getNext()||test->getGroup()!=test->getNext()->getGroup());", "TestRegistry::endOfGroup")
     expect_body(reg, r"void\s+TestRegistry::setRunTestsInSeperateProcess\s*\(\s*\)\s*\{", "runInSeperateProcess_=true;",
@@ -324,6 +335,8 @@ def extract():
     text += "def msgNoFork : String := %s\n" % lean_str(msg_nofork)
     text += "/-- where `TestRegistry::runAllTests` sets the per-test separate-process flag -/\n"
     text += "def sepFlagPlacement : SepFlagPlacement := .%s\n" % placement
+    text += "/-- what the run-ignored branch of `IgnoredUtestShell::runOneTest` calls -/\n"
+    text += "def ignoredRunCall : IgnoredRunCall := .%s\n" % ign_call
     text += "/-- the `if (arguments_->…) …;` statements of `CommandLineTestRunner::initializeTestRun`, in source order -/\n"
     text += "def initStatements : List InitStmt := [\n"
     text += ",\n".join("  { switch := .%s, isElse := %s }" % (sw, "true" if e else "false") for sw, e in init_stmts)
